@@ -693,7 +693,7 @@ func stressWalk(r *hx.Run, rng *hx.Rng) bool {
 func stressTwin(r *hx.Run, rng *hx.Rng, kind string) bool {
 	base := strings.TrimPrefix(kind, "twin-")
 	sig := func(o string) map[string]string { return map[string]string{"oracle": o, "mode": "stress", "kind": kind} }
-	for attempt := 0; attempt < 40; attempt++ {
+	for attempt := 0; attempt < attemptsPerRound(r, 40); attempt++ {
 		o := newBarrierObj(base, rng)
 		rd := &round{light: true}
 		writes := 0
@@ -822,7 +822,18 @@ var sideFile *os.File
 // the judged log line last.  If the child dies, the parent rebuilds the failing cases from these records.
 type sideRec struct {
 	hx.Finding
-	Lines []string `json:"lines"`
+	Lines  []string `json:"lines"`
+	Marker string   `json:"marker,omitempty"` // no finding: the round that is about to run (`stress <kind> <seed>`)
+}
+
+// markRound notes in the side file which round is about to run: if the process dies in it (a fatal runtime error of
+// a broken protocol), the parent reports the crash with this round as its failing input.
+func markRound(line string) {
+	if sideFile != nil {
+		if b, err := json.Marshal(sideRec{Marker: line}); err == nil {
+			sideFile.Write(append(b, '\n'))
+		}
+	}
 }
 
 func fail(r *hx.Run, kind, oracle, detail, line string) {
@@ -840,7 +851,7 @@ func fail(r *hx.Run, kind, oracle, detail, line string) {
 		if len(full) < 20000 && isLogLine(full) {
 			lines = append(lines, full+" => accept")
 		}
-		if b, err := json.Marshal(sideRec{hx.Finding{Oracle: oracle, Detail: detail + " | " + line, Signature: sig}, lines}); err == nil {
+		if b, err := json.Marshal(sideRec{Finding: hx.Finding{Oracle: oracle, Detail: detail + " | " + line, Signature: sig}, Lines: lines}); err == nil {
 			sideFile.Write(append(b, '\n'))
 		}
 	}
@@ -1080,6 +1091,8 @@ func stressOne(r *hx.Run, kind string, seed uint64) bool {
 		return stressTwin(r, rng, kind)
 	case "barrier-var", "barrier-set", "barrier-event":
 		return stressBarrier(r, rng, kind)
+	case "window-var", "window-set", "window-event":
+		return stressWindow(r, rng, kind)
 	case "crowd-var", "crowd-set", "crowd-event", "crowd-dset":
 		crowd = rng.Range(40, 80)
 		defer func() { crowd = 0 }()
@@ -1118,16 +1131,31 @@ func runStressLines(r *hx.Run, op string) {
 	stressOne(r, f[1], seed)
 }
 
+// attemptsPerRound: rounds that consist of several fresh objects (twin, barrier) make a quarter of the attempts per round
+// in the thorough tier, which has 10 times the rounds and runs under the race detector.
+func attemptsPerRound(r *hx.Run, quick int) int {
+	if r.Scale > 1 {
+		return (quick + 3) / 4
+	}
+
+	return quick
+}
+
 func runStress(r *hx.Run) {
 	runDirPart(r)
 	rounds := 4000 * r.Scale
+	if r.Scale > 1 {
+		rounds = rounds * 2 / 5 // thorough: 32 000 rounds under the race detector (the tier has to fit into 20 minutes)
+	}
 	// the barrier rounds come first: their failing inputs are on file before a broken list can crash or hang a later round
 	kinds := []string{"barrier-var", "barrier-set", "barrier-event", "var", "set", "dset", "var", "crowd-var", "set", "event", "dset", "crowd-set", "var", "set", "crowd-event",
-		"var", "set", "dset", "crowd-var", "event", "set", "crowd-dset", "var", "varx", "varx", "varx", "varx", "varx", "walk-var", "twin-var", "twin-set", "twin-event"}
+		"var", "set", "dset", "crowd-var", "event", "set", "crowd-dset", "var", "varx", "varx", "varx", "varx", "varx", "walk-var", "twin-var", "twin-set", "twin-event",
+		"window-var", "window-set", "window-event"}
 	for i := 0; i < rounds; i++ {
 		seed := r.Rng.U64()
 		kind := kinds[i%len(kinds)]
 		r.Case(seed)
+		markRound(fmt.Sprintf("stress %s %d", kind, seed))
 		r.Line(fmt.Sprintf("stress %s %d", kind, seed), "ok")
 		if !stressOne(r, kind, seed) {
 			return // a timed-out round leaves goroutines behind: stop here, the failure is recorded
